@@ -66,11 +66,89 @@ fn c04(args: &[String]) {
     }
 }
 
+/// c04search <matrix.def> <outdir> <seed> <tries>: look for key sets whose double array contains a
+/// "value unit next to a node": a node N reachable by a key prefix and a byte b (not a child of N) such
+/// that the slot N.base ^ b holds a value (leaf) unit whose low byte equals b.  Such layouts are the ones
+/// where a walk that forgets the leaf flag goes wrong; the lookup harness is then run on them.
+fn c04search(args: &[String]) {
+    let matrix = &args[0];
+    let outdir = &args[1];
+    let mut state: u64 = args[2].parse::<u64>().unwrap().wrapping_mul(6364136223846793005).wrapping_add(1442695040888963407);
+    let tries: usize = args[3].parse().unwrap();
+    let mut next = move |m: u64| -> u64 {
+        state = state.wrapping_mul(6364136223846793005).wrapping_add(1442695040888963407);
+        (state >> 33) % m
+    };
+    let mut found = 0;
+    for t in 0..tries {
+        // random key set over a small alphabet, random homograph counts (they move the table offsets)
+        let nkeys = 6 + next(9) as usize;
+        let mut rows = String::new();
+        let mut keys: Vec<String> = Vec::new();
+        for _ in 0..nkeys {
+            let len = 1 + next(3) as usize;
+            let k: String = (0..len).map(|_| (b'a' + next(6) as u8) as char).collect();
+            if keys.contains(&k) {
+                continue;
+            }
+            let reps = 1 + next(3);
+            for _ in 0..reps {
+                rows.push_str(&format!("{},0,0,100,{},名詞,*,*,*,*,*,ヨミ,{},*,A,*,*,*,*\n", k, k, k));
+            }
+            keys.push(k);
+        }
+        let csv = format!("{}/search_{}.csv", outdir, t);
+        std::fs::write(&csv, &rows).unwrap();
+        let bytes = match compile_system(matrix, &csv) {
+            Ok(b) => b,
+            Err(_) => continue,
+        };
+        let dl = sudachi::dic::DictionaryLoader::read_system_dictionary(&bytes).expect("loads");
+        let lexoff = sudachi::dic::header::Header::STORAGE_SIZE + dl.grammar.as_ref().unwrap().storage_size;
+        let n = le32(&bytes, lexoff);
+        let units: Vec<u32> = (0..n).map(|i| le32(&bytes, lexoff + 4 + 4 * i) as u32).collect();
+        let offset = |u: u32| -> usize { ((u >> 10) << ((u & (1 << 9)) >> 6)) as usize };
+        // walk all nodes reachable by key prefixes
+        let mut stack: Vec<(usize, Vec<u8>)> = vec![(offset(units[0]), Vec::new())];
+        let mut hit: Option<(Vec<u8>, u8)> = None;
+        while let Some((pos, path)) = stack.pop() {
+            for b in 1u32..256 {
+                let idx = pos ^ b as usize;
+                if idx >= units.len() {
+                    continue;
+                }
+                let u = units[idx];
+                if u & 0x8000_0000 != 0 {
+                    if (u & 0xff) == b && path.len() <= 3 && hit.is_none() {
+                        hit = Some((path.clone(), b as u8));
+                    }
+                } else if (u & 0xff) == b && u != 0 {
+                    let mut p2 = path.clone();
+                    p2.push(b as u8);
+                    if p2.len() <= 4 {
+                        stack.push((idx ^ offset(u), p2));
+                    }
+                }
+            }
+        }
+        if let Some((path, b)) = hit {
+            println!("{}\t{:?}\t{}", csv, path, b);
+            found += 1;
+            if found >= 2 {
+                break;
+            }
+        } else {
+            let _ = std::fs::remove_file(&csv);
+        }
+    }
+}
+
 fn main() {
     let args: Vec<String> = std::env::args().skip(1).collect();
     match args.get(0).map(|s| s.as_str()) {
         Some("c17") => c17(&args[1..]),
         Some("c04") => c04(&args[1..]),
+        Some("c04search") => c04search(&args[1..]),
         _ => {
             eprintln!("usage: verif-gen c17 <char.def>...");
             std::process::exit(2);
